@@ -8,6 +8,10 @@
                    what each end received (a block that is not uniform, or a partial block, collapses to 255), so that
                    megabytes go through the tunnel while the wire values stay small; the model is the same
                3 = WebSocket upgrade over the HTTPS listener (wss) of that DynamicRecord server
+               4, 5, 6 = TLS "stream" proxy (normal server) where the client negotiates TLS 1.0, 1.1, 1.2 with a CBC suite
+                   (AES128-SHA; TLS 1.0 + CBC makes the server split every write into a 1-byte and an (n-1)-byte record);
+                   kind 1 negotiates TLS 1.2 with an AEAD suite
+               7 = wss where the client negotiates TLS 1.0 with a CBC suite
        cearly  bytes the client sends in the SAME write as its upgrade request (kind 1: first application data, written
                immediately after the TLS handshake)
        bearly  bytes the backend sends in the SAME write as its 101 response (kind 1: written as soon as the backend accepts)
@@ -49,7 +53,7 @@ Definition decode_tunnel (v : val) : option tunnel :=
   | VL [VZ kind; VB ce; VB be; VL evs; VZ closer; VZ mode] =>
     match all_some (map decode_event evs) with
     | Some es =>
-      if ((0 <=? kind) && (kind <=? 3)) && bytes_ok ce && bytes_ok be && ((mode =? 0) || (mode =? 1)) && (length es <=? 12)%nat then
+      if ((0 <=? kind) && (kind <=? 7)) && bytes_ok ce && bytes_ok be && ((mode =? 0) || (mode =? 1)) && (length es <=? 12)%nat then
         match closer with
         | 0 => Some (mkTunnel kind ce be es CB)
         | 1 => Some (mkTunnel kind ce be es BC)
